@@ -112,3 +112,13 @@ package ice
 //@   site call clearWriteDeadlineAfterAbort#1 assert only-the-last-writer-of-an-aborted-write-clears-the-deadline: state >= 9223372036854775808 && state % 4611686018427387904 == 1 && arg1 == writeErr
 //@   site call CompareAndSwap#1 assert last-writer-leaves-by-decrementing: arg1 == state && arg2 == state - 1 && state >= 9223372036854775808 && state % 4611686018427387904 == 1
 //@   site call CompareAndSwap#2 assert other-writers-just-leave: arg1 == state && arg2 == state - 1 && state % 4611686018427387904 >= 1 && !(state >= 9223372036854775808 && state % 4611686018427387904 == 1)
+
+// retainShared succeeds only while the count is positive (somebody still holds a handle, so the Close of the
+// last handle has not started) and then holds one more reference; otherwise it changes nothing.
+//@ func retainShared
+//@   props C13 C12 C15
+//@   requires refs != nil
+//@   requires reference-counter-not-exhausted: *refs < 2147483647
+//@   loop 1 invariant no-interference-in-the-sequential-reading: *refs == old(*refs)
+//@   ensures succeeds-only-on-a-positive-count-and-takes-one-reference: result ==> old(*refs) > 0 && *refs == old(*refs) + 1
+//@   ensures a-refusal-changes-nothing: !result ==> old(*refs) <= 0 && *refs == old(*refs)
